@@ -1,6 +1,7 @@
 package checks
 
 import (
+	"encoding/json"
 	"fmt"
 
 	"verif/internal/gen"
@@ -17,17 +18,22 @@ func init() {
 			"rendered canonically and in 3 (quick) / 6 (thorough) random spellings: 0..3 spaces at every position the grammar marks optional (inside brackets, around , : == != < <= > >= =~ " +
 			"&& ||, after !, inside ?( ) and parentheses, leading/trailing, around filter operands), ' vs \" quotes, + sign / leading zeros on index and slice integers, .* vs [*], .name vs " +
 			"['name'], omitted leading $; judged: identical values, or errors of the same type reported for the same step INDEX (each spelling's own step texts map the reported text back " +
-			"to an index) with the same expected/found; non-trivial = the spelling differs from the canonical text and the path has >= 2 steps or a filter; distinct = distinct (spelled text, document)",
+			"to an index) with the same expected/found; a second segment takes RAW name text (letters, blanks, non-ASCII, DEL / C1, raw C0 control characters, escape sequences valid in both quote styles) and puts the very same characters between single and between double quotes - at root, after `..`, in a multi-name list and inside a filter - on a document that contains the decoded name when the text decodes: both quote styles must give the same values or the same error type; non-trivial = the spelling differs from the canonical text and the path has >= 2 steps or a filter; distinct = distinct (spelled text, document)",
 		Assumptions: []string{"the renderer's list of insignificant variations is the one in the property statement"},
 		Plan: func(tier string, seed int64) *harness.Plan {
 			sys := newSysCases("quick")
 			nSp := size(tier, 3, 6)
+			nMain := sys.n()/2 + size(tier, 100000, 6000000)
 			return &harness.Plan{
-				N:     sys.n()/2 + size(tier, 100000, 6000000),
+				N:     nMain + size(tier, 30000, 1500000),
 				Setup: func(c *harness.Ctx) { hooksOn() },
 				Run: func(c *harness.Ctx, k int) {
 					hooksAlternate(k)
 					var d *diffCase
+					if k >= nMain {
+						runC18Quotes(c)
+						return
+					}
 					if k < sys.n()/2 {
 						d = sys.get(k * 2)
 					} else {
@@ -42,7 +48,7 @@ func init() {
 					runC18(c, d, nSp)
 				},
 				Finish:   reportHooks,
-				Required: []string{"variation:spaces", "variation:quotes", "variation:int", "variation:rootless", "same:values", "same:error"},
+				Required: []string{"variation:spaces", "variation:quotes", "variation:int", "variation:rootless", "same:values", "same:error", "quotes:raw-text-values", "quotes:raw-text-error"},
 			}
 		},
 	})
@@ -139,6 +145,55 @@ func runC18(c *harness.Ctx, d *diffCase, nSp int) {
 				det["spelling_error_shape"] = fmt.Sprint(frame, idx)
 				c.Violation("error "+key, "two spellings of the same path fail with a different error type or for a different step", det)
 			}
+		}
+	}
+}
+
+// rawNameChunks: characters and escape sequences that mean the same between single and between double quotes
+// (neither quote character itself). Raw control characters are rejected by the JSON-style decoding - in BOTH styles.
+var rawNameChunks = []string{"a", "b", "Z", "0", " ", "-", ".", "*", "$", "@", "[", "]", "(", ")", "?", ",", ":", "é", "名", "😀", "\x7f", "\u0085", "\u00a0",
+	"\t", "\n", "\r", "\x01", "\x08", "\x0c", "\x1f", "\x00", `\\`, `\/`, `\b`, `\f`, `\n`, `\r`, `\t`, `\u0041`, `\u00e9`, `\ud83d\ude00`, `\ud800`, `\u0000`}
+
+func runC18Quotes(c *harness.Ctx) {
+	r := c.Rand()
+	var raw string
+	for n := 1 + r.Intn(6); n > 0; n-- {
+		raw += rawNameChunks[r.Intn(len(rawNameChunks))]
+	}
+	// the document holds the decoded name (when the text decodes as a JSON string) next to near misses
+	doc := map[string]interface{}{"a": float64(1), raw: "raw-text-as-key"}
+	var decoded string
+	if err := json.Unmarshal([]byte(`"`+raw+`"`), &decoded); err == nil {
+		doc[decoded] = "HIT"
+	}
+	forms := []struct{ name, pre, post string }{
+		{"root", "$[", "]"}, {"recursive", "$..[", "]"}, {"multi", "$['a',", "]"}, {"spaced", "$[ ", " ]"}, {"filter", "$[?(@[", "])]"}, {"rootless", "[", "]"},
+	}
+	f := forms[r.Intn(len(forms))]
+	var src interface{} = doc
+	if f.name == "filter" {
+		src = []interface{}{doc, map[string]interface{}{"a": float64(2)}}
+	}
+	sq, dq := f.pre+"'"+raw+"'"+f.post, f.pre+`"`+raw+`"`+f.post
+	o1, o2 := lib.Retrieve(sq, src), lib.Retrieve(dq, src)
+	key := fmt.Sprintf("quotes %q vs %q", sq, dq)
+	det := map[string]interface{}{"single_quoted": sq, "double_quoted": dq, "single_quoted_go": fmt.Sprintf("%q", sq), "double_quoted_go": fmt.Sprintf("%q", dq),
+		"document": lib.JS(src), "single_quoted_outcome": o1.String(), "double_quoted_outcome": o2.String()}
+	c.NonTrivial(sq)
+	switch {
+	case o1.Panic != nil || o2.Panic != nil:
+		c.Violation("panic "+key, "Retrieve panicked on a quoted name", det)
+	case (o1.Err == nil) != (o2.Err == nil):
+		c.Violation("outcome "+key, "the same name text succeeds between one kind of quotes and fails between the other", det)
+	case o1.Err == nil:
+		c.Cover("quotes:raw-text-values")
+		if !lib.SameList(o1.Res, o2.Res) {
+			c.Violation("values "+key, "the same name text selects different values between single and double quotes", det)
+		}
+	default:
+		c.Cover("quotes:raw-text-error")
+		if t1, t2 := fmt.Sprintf("%T", o1.Err), fmt.Sprintf("%T", o2.Err); t1 != t2 {
+			c.Violation("error "+key, "the same name text fails with different error types between single and double quotes", det)
 		}
 	}
 }
